@@ -383,3 +383,53 @@ pub fn valid_relative(wire: &[u8]) -> bool {
         pos += l + 1;
     }
 }
+
+/// valid_relative with a static label budget `k` (false if more labels).
+pub fn valid_relative_k(wire: &[u8], k: usize) -> bool {
+    let n = wire.len();
+    if n > 254 {
+        return false;
+    }
+    let mut pos = 0;
+    let mut i = 0;
+    while i < k {
+        if pos == n {
+            return true;
+        }
+        if pos > n {
+            return false;
+        }
+        let l = wire[pos] as usize;
+        if l > 63 || l == 0 {
+            return false;
+        }
+        pos += l + 1;
+        i += 1;
+    }
+    pos == n
+}
+
+/// valid_absolute with a static label budget `k` (non-root labels).
+pub fn valid_absolute_k(wire: &[u8], k: usize) -> bool {
+    let n = wire.len();
+    if n == 0 || n > 255 {
+        return false;
+    }
+    let mut pos = 0;
+    let mut i = 0;
+    while i <= k {
+        if pos >= n {
+            return false;
+        }
+        let l = wire[pos] as usize;
+        if l > 63 {
+            return false;
+        }
+        if l == 0 {
+            return pos + 1 == n;
+        }
+        pos += l + 1;
+        i += 1;
+    }
+    false
+}
